@@ -391,6 +391,10 @@ impl<F: Fam> Ctx<F> {
         self.after_op(s, &[C08], true)
     }
 
+    pub fn old_keys_pub(&mut self, s: usize) -> BTreeSet<u32> {
+        self.old_keys(s)
+    }
+
     fn old_keys(&mut self, s: usize) -> BTreeSet<u32> {
         let mut set = BTreeSet::new();
         if self.slots[s].map.verif_state().old.map_or(0, |o| o.len) == 0 {
